@@ -94,6 +94,16 @@ CLAIMED = {
               "databases on equal key names through all paths over TCP, all 16 databases dumped and compared after each history (52k evaluations)."),
         note=TB + "WATCH across SELECT is C08's; blocking-pop timeouts and multi-key waits are C13's; scripts use a restricted UTF-8 vocabulary (executor/handler parity is C12's).",
         ref="DESIGN.md section 5 C18"),
+    "C02": dict(
+        text=("Proof: the storage functions of engine.rs are transliterated with respect to the stored deadline and the index expiring_keys, the sweeper as two phases (collect, delete) interleavable "
+              "with any storage call; for the configuration regenerated from the current source (codeCfg: which functions test the deadline lazily, sweeper re-check, four index-maintenance sites) "
+              "the full statements are theorems for EVERY interleaving of calls, clock advances and sweeper phases: the machine refines the instant-expiry Spec store (never late: from the deadline on a key "
+              "is absent to every function of every type), a key without TTL or with a later one is never deleted by the server on its own (no spurious delete, incl. the collect/delete window), the index "
+              "agrees with the stored deadlines, TTL removal by SET/GETSET/MSET/PERSIST, RENAME carries the deadline, in-place modifications keep it, TTL/PTTL reply arithmetic incl. -1/-2 and the "
+              "last millisecond - 46 Lean theorems with witness lemmas for the pinned configuration; table theorems by decide tie Gen tables (every pub fn of StorageEngine classified) to the repaired values; "
+              "the real server is driven over TCP with the sweeper paused/parked at a gate (every command of every type x before/at/after the deadline, stale-index and window schedules, 120 schedules, 17k evaluations)."),
+        note=TB + "Wall-clock instants are inputs of the model (the single instant now = deadline is left to either side; replies compared within a measured window); 'tests the deadline' is read syntactically per function and validated per command dynamically; RDB/AOF interplay with expiry is C09/C11.",
+        ref="DESIGN.md section 5 C02"),
     "C08": dict(
         text=("Proof: watch soundness for every history of any number of connections (a marking write to a watched key of the watched database between WATCH and EXEC => EXEC "
               "replies nil and executes nothing), no false abort (an untouched watch set executes), UNWATCH/EXEC/DISCARD forget, per-connection isolation, re-WATCH keeps the first "
